@@ -166,6 +166,15 @@ CHECKS = {
    design_ref='DESIGN.md section 6 (C12)',
    note='Trusted: strace injection, the single-threaded saver, the classification by projection of the loaded state. A process death cannot tear one write(2): torn writes are model-only.',
    technique='TLA+ crash model over a strace-recorded operation sequence + real SIGKILL injection at every recorded crash point'),
+ 'C19': dict(
+   category='model_checking',
+   text='Sessions.tla interleaves two sessions at instruction granularity over shared immutable code with byte buffers modelled as Go slices (array, offset, length, capacity), which makes writes '
+        'through aliased spare capacity visible; TLC checks NonInterference and NoSharedWrite over all interleavings and emits every complete schedule; each schedule is reproduced exactly on the '
+        'real VM (the run-loop hook is the scheduler gate) and compared with solo runs; free-running randomized sessions on 2..16 goroutines over one shared resource (slices with and without spare '
+        'capacity) run under the Go race detector with transcript comparison and a check that shared data is unmodified.',
+   design_ref='DESIGN.md section 6 (C19)',
+   note='Trusted: TLC, the Go race detector (decides the "no data race" half), the hook gate. The model covers aliasing of the code buffer; other shared state is searched for by the race detector only.',
+   technique='TLA+ interleaving/aliasing model + TLC schedules replayed deterministically + race-detector runs'),
 }
 
 NOT_YET = 'check not built yet in this round (planned: DESIGN.md section 6); not claimed until its machinery exists'
